@@ -6,6 +6,7 @@ fn main() {
         "C02" => simx::c02::run_check(&args),
         "C03" => simx::c03::run_check(&args),
         "C04" => simx::c04::run_check(&args),
+        "C05" => simx::c05::run_check(&args),
         "C06" => simx::c06::run_check(&args),
         "C07" => simx::c07::run_check(&args),
         "C08" => simx::c08::run_check(&args),
